@@ -204,6 +204,77 @@ std::string region_exact(T x)
     return std::string(region_name(region_id(x))) + frac_name(frac_id(x));
 }
 
+// --- classes for the exact set: specials, then sign x magnitude bucket
+//   subnormal, tiny (< epsilon), lt_half (< 0.5), lt_1 (< 1), frac (< 2^(digits-1)),
+//   int_lt_2^63, ge_2^63;  suffix ":tie" (fraction exactly .5) / ":int" (integral) where a
+//   fraction can exist.  Functions that only look at sign/class of the argument use the
+//   coarse form: nan, +inf, -inf, +0, -0, +fin, -fin.
+inline constexpr int kExactMags    = 7;
+inline constexpr int kExactClasses = (5 + 2 * kExactMags) * 3;
+
+template <typename T>
+int exact_class_id(T x)
+{
+    int const rid = region_id(x);
+    if (rid < 5) { return rid * 3; }
+    int const neg = (rid - 5) & 1;
+    int const mag = (rid - 5) >> 1; // 0 sub, 1 tiny, 2 small, 3 lt_1, 4 lt_8, 5 lt_1024, 6 frac, 7 int, 8 huge
+    T const a     = x < 0 ? -x : x;
+    int em;
+    switch (mag) {
+    case 0: em = 0; break;
+    case 1: em = 1; break;
+    case 2: em = 2; break;
+    case 3: em = (a < T(0.5)) ? 2 : 3; break;
+    case 4:
+    case 5:
+    case 6: em = 4; break;
+    case 7: em = 5; break;
+    default: em = 6; break;
+    }
+    return (5 + 2 * em + neg) * 3 + frac_id(x);
+}
+inline std::string exact_class_name(int id)
+{
+    static char const* const names[5 + 2 * kExactMags] = {"nan", "pos_inf", "neg_inf", "pos_zero", "neg_zero", "pos_subnormal",
+        "neg_subnormal", "pos_tiny", "neg_tiny", "pos_lt_half", "neg_lt_half", "pos_lt_1", "neg_lt_1", "pos_frac", "neg_frac",
+        "pos_int_lt_2^63", "neg_int_lt_2^63", "pos_ge_2^63", "neg_ge_2^63"};
+    return std::string(names[id / 3]) + frac_name(id % 3);
+}
+template <typename T>
+int coarse_id(T x)
+{
+    int const rid = region_id(x);
+    return rid < 5 ? rid : 5 + ((rid - 5) & 1);
+}
+inline char const* coarse_name(int id)
+{
+    static char const* const names[7] = {"nan", "+inf", "-inf", "+0", "-0", "+fin", "-fin"};
+    return names[id];
+}
+
+/// class of an argument of an approximating function: the region with the sign merged and
+/// the two "treated as zero" buckets merged (nan, +inf, -inf, zero, tiny, small, lt_1, lt_8,
+/// lt_1024, large, huge)
+inline char const* approx_class_name(int rid)
+{
+    static char const* const special[5] = {"nan", "+inf", "-inf", "zero", "zero"};
+    static char const* const mags[9]    = {"tiny", "tiny", "small", "lt_1", "lt_8", "lt_1024", "large", "large", "huge"};
+    return rid < 5 ? special[rid] : mags[(rid - 5) >> 1];
+}
+
+/// "etl::floor(float)" -> "etl::floor": the subject is the API-level call site without the
+/// configuration (argument type); the typed spelling goes into the case string
+inline std::string strip_args(std::string const& call)
+{
+    auto const p = call.find('(');
+    return p == std::string::npos ? call : call.substr(0, p);
+}
+
+/// tells the hang watchdog of mc.hpp that the job is making progress (it only sees entries
+/// into mc::guarded otherwise)
+inline void tick() { mc::traps().guard_entries = mc::traps().guard_entries + 1; }
+
 /// coarse class of one argument of a binary function
 template <typename T>
 char const* coarse(T x)
@@ -217,6 +288,24 @@ char const* coarse(T x)
     case 4: return "-0";
     default: return ((id - 5) & 1) ? "-fin" : "+fin";
     }
+}
+
+/// magnitude tag of a pair of arguments of an approximating binary function (finite non-zero
+/// arguments only): tiny if any |v| < epsilon, else huge if any |v| >= 2^63, else large if any
+/// |v| >= 1024, else moderate
+template <typename T>
+char const* pair_magnitude(T x, T y)
+{
+    int const rx = region_id(x), ry = region_id(y);
+    bool tiny = false, huge = false, large = false;
+    for (int r : {rx, ry}) {
+        if (r < 5) { continue; }
+        int const m = (r - 5) >> 1;
+        tiny        = tiny || m <= 1;
+        huge        = huge || m == 8;
+        large       = large || m >= 6;
+    }
+    return tiny ? ":tiny" : huge ? ":huge" : large ? ":large" : (rx >= 5 || ry >= 5) ? ":moderate" : "";
 }
 
 // ---------------------------------------------------------------------------------------
@@ -243,7 +332,7 @@ inline void report(mc::Reporter& r, std::string const& prop, std::string const& 
 // ---------------------------------------------------------------------------------------
 
 /// B32 / B64: +-0, denormal min/max, normal min/max, +-inf, quiet NaN, 2^j and its two
-/// neighbours for every 4th exponent, n, n+0.5 and their neighbours for |n| <= 4 (both ties
+/// neighbours for 64 evenly spaced exponents (every 4th for float, every 32nd for double), n, n+0.5 and their neighbours for |n| <= 4 (both ties
 /// of each parity), 0.5-ulp, the fraction/no-fraction edge 2^(digits-1), 2^digits, 2^31,
 /// 2^32, 2^63, 2^64 and neighbours, multiples of pi/2 up to 8, 1e-3 ... 1e3 decades.
 /// Sorted simplest first: by magnitude (as bit pattern), positive before negative; NaN last.
@@ -275,7 +364,7 @@ std::vector<T> make_boundary()
     add(std::numeric_limits<T>::infinity());
     add3(std::numeric_limits<T>::epsilon());
     add3(std::numeric_limits<T>::epsilon() / 2);
-    for (int e = 1; e < (1 << ebits) - 1; e += 4) { add3(from_bits<T>(B(e) << mant)); }
+    for (int e = 1; e < (1 << ebits) - 1; e += (1 << (ebits - 6))) { add3(from_bits<T>(B(e) << mant)); }
     for (int n = 0; n <= 4; ++n) {
         add3(T(n));
         add3(T(n) + T(0.5));
@@ -347,6 +436,75 @@ inline std::vector<u64> grid_mantissas(bool small)
     s.insert(u64(3) << 50);
     return std::vector<u64>(s.begin(), s.end());
 }
+
+// ---------------------------------------------------------------------------------------
+// approximating functions: verdict of one result against libm
+// ---------------------------------------------------------------------------------------
+//
+// got      result of the tetl path in type T
+// ref      libm's result in the same type T  (decides "NaN / +-inf exactly where C requires")
+// ref_hi   libm's result in the next wider type (double for float, long double for double):
+//          the value errors are measured against
+// Error unit: relative error divided by epsilon(T) ("eps"), with the denominator floored at
+// the smallest normal number so that results in the subnormal range are judged absolutely.
+// The sign of a zero result is NOT compared (the statement only fixes NaN and infinities).
+enum class Verdict { ok, nan_mismatch, inf_mismatch, tolerance };
+
+/// relative-error cap: 2^-10 (the library's own tests accept 0.001); a point that is off by
+/// more than this is a violation whatever was measured.
+template <typename T>
+constexpr double cap_eps()
+{
+    return std::ldexp(1.0, -10) / double(std::numeric_limits<T>::epsilon());
+}
+
+template <typename T, typename H>
+Verdict judge(T got, T ref, H ref_hi, double bound_eps, double& err_eps)
+{
+    err_eps          = 0;
+    H const eps      = H(std::numeric_limits<T>::epsilon());
+    H const tmax     = H(std::numeric_limits<T>::max());
+    H const tmin     = H(std::numeric_limits<T>::min());
+    H const tol      = H(bound_eps) * eps;
+    auto const habs  = [](H v) { return v < 0 ? -v : v; };
+    auto const relerr = [&](H g) {
+        H const den = habs(ref_hi) > tmin ? habs(ref_hi) : tmin;
+        return double(habs(g - ref_hi) / den / eps);
+    };
+    // a wide reference that disagrees with libm's same-type result about NaN/infinity (seen:
+    // powl(-inf, -2^63) = inf where pow() = +0) cannot serve as the value to measure against
+    if (!(ref != ref) && !std::isinf(ref) && (ref_hi != ref_hi || std::isinf(ref_hi))) { ref_hi = H(ref); }
+    if (ref != ref) { return (got != got) ? Verdict::ok : Verdict::nan_mismatch; }
+    if (got != got) { return Verdict::nan_mismatch; }
+    if (std::isinf(ref)) {
+        if (std::isinf(got)) { return ((got > 0) == (ref > 0)) ? Verdict::ok : Verdict::inf_mismatch; }
+        // finite where libm overflows: acceptable only at the overflow threshold
+        if (!(ref_hi != ref_hi) && !std::isinf(ref_hi) && habs(ref_hi) <= tmax * (H(1) + tol)) {
+            err_eps = relerr(H(got));
+            return err_eps <= bound_eps ? Verdict::ok : Verdict::tolerance;
+        }
+        return Verdict::inf_mismatch;
+    }
+    if (std::isinf(got)) {
+        if (habs(ref_hi) >= tmax * (H(1) - tol) && ((got > 0) == (ref_hi > 0))) { return Verdict::ok; }
+        return Verdict::inf_mismatch;
+    }
+    err_eps = relerr(H(got));
+    return err_eps <= bound_eps ? Verdict::ok : Verdict::tolerance;
+}
+
+inline char const* verdict_name(Verdict v)
+{
+    switch (v) {
+    case Verdict::ok: return "ok";
+    case Verdict::nan_mismatch: return "NaN where libm has none (or the reverse)";
+    case Verdict::inf_mismatch: return "infinity where libm has none (or the reverse, or the wrong sign)";
+    case Verdict::tolerance: return "relative error above the bound";
+    }
+    return "?";
+}
+
+inline bool measuring() { return std::getenv("C16_MEASURE") != nullptr; }
 
 /// low-bit patterns of the A(q) float lattice
 inline std::vector<u32> low_patterns(int lowbits)
